@@ -385,6 +385,39 @@ def check_err_sites(src):
                 rows.append((v, [re.sub(r"_type$", "", a) for a in args[:2]], [a.endswith("_type") for a in args[:2]], owners[0]))
     return rows
 
+def display_table(src):
+    """term.rs, `impl Display for Variant`: for the binary operators and negation the format string and how each operand
+    is wrapped; for the other arms the CRC-32 of their text"""
+    m = re.search(r"impl\s+Display\s+for\s+Variant", src)
+    if not m: fail("arms: Display for Variant not found")
+    body, _ = match_block(src, m.end())
+    mm = re.search(r"\bmatch\s+self\s*\{", body)
+    if not mm: fail("arms: Display: no `match self`")
+    blk, _ = match_block(body, mm.start())
+    ops, others = {}, {}
+    for pat, abody in split_arms(blk, "Display"):
+        for name, fields in parse_pattern(pat.replace("Self::", ""), "Display"):
+            t = re.sub(r"\s+", " ", abody).strip()
+            if name in BINARY or name == "Negation":
+                w = re.fullmatch(r"\{? ?write!\( ?f, \"([^\"]*)\", ?(.*?),? ?\) ?\}?", t)
+                if not w: fail(f"arms: Display/{name}: unreadable `{t}`")
+                args = [a.strip() for a in split_top(w.group(2), ",") if a.strip()]
+                wrapped = []
+                for a in args:
+                    g = re.fullmatch(r"(\w+)\((\w+)\)", a)
+                    if g: wrapped.append((g.group(1), fields.index(g.group(2)) if g.group(2) in fields else 99))
+                    elif a in fields: wrapped.append(("bare", fields.index(a)))
+                    else: fail(f"arms: Display/{name}: unreadable operand `{a}`")
+                ops[name] = (w.group(1), wrapped)
+            else:
+                others[name] = zlib.crc32(re.sub(r"\s+", "", pat + "=>" + abody).encode())
+    for b in BINARY + ["Negation"]:
+        if b not in ops: fail(f"arms: Display: no arm for {b}")
+    fns = {}
+    for fn in ("annotation", "group"):
+        fns[fn] = zlib.crc32(re.sub(r"\s+", "", fn_body(src, fn)).encode())
+    return ops, others, fns
+
 def gen_arms():
     db = strip_hooks(strip_comments(strip_tests(read("src/de_bruijn.rs"))))
     tm = strip_hooks(strip_comments(strip_tests(read("src/term.rs"))))
@@ -451,6 +484,13 @@ def gen_arms():
     out.append(",\n".join('  (.%s, [%s], [%s], "%s")' % (v, ", ".join(f'"{a}"' for a in ab), ", ".join("true" if t else "false" for t in ts), o)
                for v, ab, ts, o in check_err_sites(tc)))
     out += ["]", ""]
+    ops, others, fns = display_table(tm)
+    out += ["/-- `impl Display for Variant`: (variant, format string, for each `{}` how the operand is wrapped and which field it is) -/",
+            "def printOps : List (V × String × List (String × Nat)) := ["]
+    out.append(",\n".join('  (.%s, "%s", [%s])' % (v, ops[v][0], ", ".join(f'("{w}", {i})' for w, i in ops[v][1])) for v in BINARY + ["Negation"]))
+    out += ["]", "", "/-- CRC-32 of the text of the other arms of `Display`, and of `annotation` and `group` -/",
+            "def printOtherArms : List (V × Nat) := [" + ", ".join(f"(.{v}, {c})" for v, c in others.items()) + "]",
+            f"def printAnnotationFn : Nat := {fns['annotation']}", f"def printGroupFn : Nat := {fns['group']}", ""]
     un = strip_hooks(strip_comments(strip_tests(read("src/unifier.rs"))))
     eq = strip_hooks(strip_comments(strip_tests(read("src/equality.rs"))))
     for fname, src, lname in (("unify", un, "unifyPairs"), ("syntactically_equal", eq, "synEqPairs")):
